@@ -17,10 +17,18 @@ CHECKS = {
               'pending list, that each rank batches exactly its own range within its limit, and that socket masters are '
               'the lowest rank of each processor name. The range/window arithmetic is REGENERATED from '
               'Process.__assign_job_indices/_read_data_chunk by harness/py2lean.py on every run and proved equal to the '
-              'hand model, so the kernel re-checks the theorem against the current source. The correspondence runs the '
-              'real compute() once per simulated rank and compares batches/marks with the model.'),
-        note=COMMON_NOTE + 'Real MPI concurrency is not available in the sandbox and not modelled (ranks simulated via '
-             'mpi_rank/mpi_size on file copies). py2lean grammar and attribute table are trusted.',
+              'hand model, so the kernel re-checks the theorem against the current source. ranks_see_initial_status - for EVERY '
+              'number of ranks and EVERY schedule (any interleaving that respects the barriers) a rank derives its range '
+              'before any completion mark has been written, provided the synchronisation skeleton of compute() is Safe '
+              '(one assign, a barrier after it, no mark before that barrier); the skeleton is EXTRACTED from the current '
+              'source on every run (AST: order of __assign_job_indices, barrier() and writes to the status dataset, helper '
+              'methods followed) and Safe is evaluated on it by the Lean driver. The correspondence runs the real compute() '
+              'once per simulated rank on private copies AND with all ranks interleaved on one file (threads under a '
+              'deterministic cooperative scheduler with a fake mpi4py; lowest / highest runnable rank first).'),
+        note=COMMON_NOTE + 'Real MPI / the mpio driver are not available in the sandbox: collective dataset creation is simulated '
+             '(first rank creates, the others open); the status initialisation every rank performs for itself is not counted '
+             'as a completion mark; two schedules per interleaved case. py2lean grammar, attribute table and the skeleton '
+             'extractor are trusted.',
         ref='§5 C14'),
 }
 
